@@ -197,6 +197,8 @@ fn weight() -> impl Strategy<Value = u64> {
         6 => 1u64..4,
         3 => 1u64..100,
         1 => (1u64 << 40)..(1u64 << 60),
+        // totals between 2^56 and 2^64: any shortcut in the 256-bit reduction shows up as a skewed share
+        1 => prop_oneof![Just(1u64 << 62), Just(1u64 << 61), Just(3u64 << 60), (1u64 << 56)..(1u64 << 62)],
     ]
 }
 
@@ -240,6 +242,11 @@ fn strategy(nmax: usize) -> impl Strategy<Value = Case> {
             let mut validators: Vec<(usize, u64, bool)> =
                 ids.into_iter().zip(wl).map(|(k, (w, l))| (k, w, l)).collect();
             validators[force].2 = true;
+            // the total weight has to fit into 64 bits: halve the heaviest validator until it does
+            while validators.iter().map(|v| v.1 as u128).sum::<u128>() > u64::MAX as u128 {
+                let i = (0..validators.len()).max_by_key(|i| validators[*i].1).unwrap();
+                validators[i].1 /= 2;
+            }
             views(frequency).prop_map(move |views| Case {
                 validators: validators.clone(),
                 weighted,
@@ -262,7 +269,7 @@ pub fn main(env: &Env) -> i32 {
     parts.push(run_proptest(
         env,
         "leader",
-        "schedules of 1..8 (thorough 20) validators, weights {1, 1..3, 1..99, 2^40..2^60} with small totals over-represented, any non-empty eligible subset, \
+        "schedules of 1..8 (thorough 20) validators, weights {1, 1..3, 1..99, 2^40..2^60, 2^56..2^62 with totals up to 2^64} with small totals over-represented, any non-empty eligible subset, \
          both modes, frequency {0,1,2..7,u64::MAX,random}, views {0..64, random, top 64, k*f-1..k*f+1, 2^k}; oracle: no panic, member & eligible, \
          input-order and encode/decode independence, same leader within a turn, round-robin permutation+period, weighted share within 6.5 sigma over 4096 turns; \
          non-trivial = (>=2 eligible and >=1 ineligible) or frequency 0 or weighted with leader weight <= 8 or weighted with >= 2 eligible; distinct = whole case",
